@@ -49,12 +49,27 @@ impl PreprocessedText {
         };
 
         let range = Range::new(base, base + s.len());
+        #[cfg(sv_parser_verif)]
+        match origin {
+            Some((ref p, ref r)) => sv_parser_parser::verif::emit(
+                "push",
+                &[base as i64, s.len() as i64, 1, r.begin as i64, r.end as i64],
+                &[&p.to_string_lossy()],
+            ),
+            None => sv_parser_parser::verif::emit("push", &[base as i64, s.len() as i64, 0, 0, 0], &[]),
+        }
         let origin = Origin { range, origin };
         self.origins.insert(range, origin);
     }
 
     fn merge(&mut self, other: PreprocessedText) {
         let base = self.text.len();
+        #[cfg(sv_parser_verif)]
+        sv_parser_parser::verif::emit(
+            "merge",
+            &[base as i64, other.text.len() as i64, other.origins.len() as i64],
+            &[],
+        );
         self.text.push_str(&other.text);
         for (mut range, mut origin) in other.origins {
             range.offset(base);
@@ -211,6 +226,18 @@ pub fn preprocess_str<T: AsRef<Path>, U: AsRef<Path>, V: BuildHasher>(
     // The number of nesting levels for include files shall be finite.
     // Implementations may limit the maximum number of levels to which
     // include files can be nested, but the limit shall be at least 15.
+    #[cfg(sv_parser_verif)]
+    sv_parser_parser::verif::emit(
+        "pp_enter",
+        &[
+            resolve_depth as i64,
+            include_depth as i64,
+            ignore_include as i64,
+            strip_comments as i64,
+            s.len() as i64,
+        ],
+        &[&path.as_ref().to_string_lossy()],
+    );
     if include_depth > RECURSIVE_LIMIT {
         return Err(Error::ExceedRecursiveLimit);
     }
@@ -684,6 +711,12 @@ pub fn preprocess_str<T: AsRef<Path>, U: AsRef<Path>, V: BuildHasher>(
                     }
                 }
 
+                #[cfg(sv_parser_verif)]
+                sv_parser_parser::verif::emit(
+                    "include",
+                    &[include_depth as i64 + 1],
+                    &[&path.to_string_lossy()],
+                );
                 let (include, new_defines) =
                     preprocess_inner(
                         path,
@@ -773,6 +806,12 @@ pub fn preprocess_str<T: AsRef<Path>, U: AsRef<Path>, V: BuildHasher>(
         }
     }
 
+    #[cfg(sv_parser_verif)]
+    sv_parser_parser::verif::emit(
+        "pp_leave",
+        &[resolve_depth as i64, include_depth as i64, ret.text.len() as i64],
+        &[],
+    );
     Ok((ret, defines))
 }
 
@@ -915,6 +954,8 @@ fn resolve_text_macro_usage<T: AsRef<Path>, U: AsRef<Path>>(
     let (_, ref name, ref args) = x.nodes;
     let id = identifier((&name.nodes.0).into(), &s).unwrap();
 
+    #[cfg(sv_parser_verif)]
+    sv_parser_parser::verif::emit("resolve", &[resolve_depth as i64], &[&id]);
     if resolve_depth > RECURSIVE_LIMIT {
         return Err(Error::ExceedRecursiveLimit);
     }
